@@ -54,6 +54,8 @@ struct Rules {
     triple_quote: bool,
     dollar_ident: bool,
     regex: bool,
+    /// characters besides LF that end a `//` comment (language specifications: JS LineTerminator; Swift / Kotlin / Scala line breaks)
+    line_comment_ends: &'static [char],
 }
 #[derive(PartialEq)]
 enum Backtick {
@@ -64,11 +66,11 @@ enum Backtick {
 
 fn rules(lang: Lang) -> Rules {
     match lang {
-        Lang::TypeScript => Rules { nested_block_comments: false, single_quote_string: true, backtick: Backtick::Template, triple_quote: false, dollar_ident: true, regex: true },
-        Lang::Kotlin => Rules { nested_block_comments: true, single_quote_string: false, backtick: Backtick::Ident, triple_quote: true, dollar_ident: false, regex: false },
-        Lang::Swift => Rules { nested_block_comments: true, single_quote_string: false, backtick: Backtick::Ident, triple_quote: true, dollar_ident: false, regex: false },
-        Lang::Scala => Rules { nested_block_comments: true, single_quote_string: false, backtick: Backtick::Ident, triple_quote: true, dollar_ident: true, regex: false },
-        Lang::Go => Rules { nested_block_comments: false, single_quote_string: false, backtick: Backtick::RawString, triple_quote: false, dollar_ident: false, regex: false },
+        Lang::TypeScript => Rules { nested_block_comments: false, single_quote_string: true, backtick: Backtick::Template, triple_quote: false, dollar_ident: true, regex: true, line_comment_ends: &['\r', '\u{2028}', '\u{2029}'] },
+        Lang::Kotlin => Rules { nested_block_comments: true, single_quote_string: false, backtick: Backtick::Ident, triple_quote: true, dollar_ident: false, regex: false, line_comment_ends: &['\r'] },
+        Lang::Swift => Rules { nested_block_comments: true, single_quote_string: false, backtick: Backtick::Ident, triple_quote: true, dollar_ident: false, regex: false, line_comment_ends: &['\r'] },
+        Lang::Scala => Rules { nested_block_comments: true, single_quote_string: false, backtick: Backtick::Ident, triple_quote: true, dollar_ident: true, regex: false, line_comment_ends: &['\r'] },
+        Lang::Go => Rules { nested_block_comments: false, single_quote_string: false, backtick: Backtick::RawString, triple_quote: false, dollar_ident: false, regex: false, line_comment_ends: &[] },
         Lang::Python => panic!("python is tokenised by CPython"),
     }
 }
@@ -106,7 +108,7 @@ pub fn lex(lang: Lang, src: &str) -> Result<Vec<Tok>, LexError> {
         let start_line = line;
         // comments
         if c == '/' && at(i + 1) == '/' {
-            while i < n && at(i) != '\n' {
+            while i < n && at(i) != '\n' && !r.line_comment_ends.contains(&at(i)) {
                 i += 1;
             }
             toks.push(Tok { kind: TokKind::LineComment, text: src[off(start)..off(i)].to_string(), start: off(start), end: off(i), line: start_line, nl_before: nl, escaped: false });
